@@ -287,6 +287,15 @@ def scalar_forms(v, k=0):
     return forms[k % len(forms)]
 
 
+def runtime_str(s, k=0):
+    """the same text as a string object built at run time (read from a configuration
+    file, a command line, a JSON document, an array of labels): equal to the literal,
+    not the same object - and, for one form, a numpy string scalar"""
+    forms = ["".join(list(s)), (s + " ").strip(), np.str_(s),
+             bytes(s, "ascii").decode("ascii"), json.loads(json.dumps([s]))[0]]
+    return forms[k % len(forms)]
+
+
 def _first_diff(a, b):
     if a.shape != b.shape:
         return None
@@ -528,6 +537,42 @@ class Ctx:
                    f"{label}|earlier-result-overwritten-by-call-on-other-data", case,
                    lambda: {"kept": jsonable(truncate(jsonable(keep4))),
                             "now": jsonable(truncate(jsonable(r4)))})
+
+    def concurrent(self, label, fn, argsets, case, rtol=1e-14, atol=0.0, nthreads=4,
+                   repeats=6):
+        """The same calls made at the same time from several threads (a web service, a
+        thread pool scoring many sites): each call answers what it answers alone.
+        argsets: list of argument tuples, one per thread (same shapes, other data)."""
+        import threading
+        try:
+            alone = [fn(*[np.array(a, copy=True) if isinstance(a, np.ndarray) else a
+                          for a in args]) for args in argsets]
+        except Exception:
+            return
+        wrong, errors = [], []
+        barrier = threading.Barrier(len(argsets))
+
+        def work(i):
+            try:
+                barrier.wait(timeout=30)
+                for _ in range(repeats):
+                    r = fn(*[np.array(a, copy=True) if isinstance(a, np.ndarray) else a
+                             for a in argsets[i]])
+                    if not same_result(r, alone[i], rtol, atol):
+                        wrong.append(i)
+            except Exception as e:
+                errors.append(repr(e)[:200])
+        ths = [threading.Thread(target=work, args=(i,)) for i in range(len(argsets))]
+        for t in ths:
+            t.start()
+        for t in ths:
+            t.join(timeout=600)
+        self.tag("concurrent-calls")
+        self.api(label, len(argsets) * (repeats + 1))
+        self.check("concurrent.same-as-alone", not wrong and not errors,
+                   f"{label}|answer-differs-when-called-from-several-threads", case,
+                   lambda: {"threads_with_wrong_answers": sorted(set(wrong)),
+                            "n_wrong_calls": len(wrong), "errors": errors[:3]})
 
     def shapes(self, label, fn, x, base, case, rtol=1e-12, atol=0.0):
         """An element-wise function gives every element the same answer whatever the
